@@ -263,10 +263,13 @@ def check(ctx):
             "i/none": {"f.go": "package none\n\nfunc Zero() uint64 {\n\treturn 0\n}\n"},
             "j/libdisk": {"f1.go": "package libdisk\n\nimport \"github.com/goose-lang/goose/machine/disk\"\n\nfunc A() uint64 {\n\treturn disk.Size()\n}\n",
                           "f2.go": "package libdisk\n\nimport \"example.com/m/i/mylib/disk\"\n\nfunc B() uint64 {\n\treturn disk.Sectors(3)\n}\n"},
+            # a package BELOW a directory named trusted_…: only the package's own name decides
+            "k/trusted_lib/helper": {"f.go": "package helper\n\nfunc H() uint64 {\n\treturn 5\n}\n"},
+            "k/usehelper": {"f.go": "package usehelper\n\nimport (\n\t\"example.com/m/b/same\"\n\t\"example.com/m/k/trusted_lib/helper\"\n)\n\nfunc U() uint64 {\n\treturn helper.H() + same.Plain()\n}\n"},
             "j/libnone": {"f.go": "package libnone\n\nimport \"example.com/m/i/none\"\n\nfunc Z() uint64 {\n\treturn none.Zero()\n}\n"},
         }
         expect_ffi = {"a/same": "disk", "b/same": "none", "c/viaa": "disk", "d/empty": "none", "e/dup": "none", "f/trust": "none", "trusted_x": "none", "g/twoutils": "none",
-                      "h/twoprov": "disk", "h/viaprov": "disk", "i/mylib/disk": "none", "i/none": "none", "j/libdisk": "disk", "j/libnone": "none"}
+                      "h/twoprov": "disk", "h/viaprov": "disk", "i/mylib/disk": "none", "i/none": "none", "j/libdisk": "disk", "j/libnone": "none", "k/trusted_lib/helper": "none", "k/usehelper": "none"}
         root = os.path.join(scratch, "co")
         alone = {}
         for d in co:
@@ -306,7 +309,8 @@ def check(ctx):
             ctx.violation("counterexample", "Require lines: two files of one package import different packages with the same name",
                           {"proto": "cli-co", "packages": {"g/twoutils": co["g/twoutils"]}}, expected=want_ureq, observed=ureq)
         for d, want_lines in (("j/libdisk", ["From Goose Require example_com.m.i.mylib.disk."]), ("j/libnone", ["From Goose Require example_com.m.i.none."]),
-                              ("h/twoprov", []), ("h/viaprov", ["From Goose Require example_com.m.a.same."])):
+                              ("h/twoprov", []), ("h/viaprov", ["From Goose Require example_com.m.a.same."]),
+                              ("k/usehelper", ["From Goose Require example_com.m.b.same.", "From Goose Require example_com.m.k.trusted_lib.helper."])):
             got_lines = [l for l in (alone[d] or b"").decode().split("\n") if "Require" in l and "prelude" not in l]
             if got_lines != want_lines and not found:
                 found = True
@@ -319,7 +323,8 @@ def check(ctx):
             ctx.violation("counterexample", "Require lines: an ordinary package next to a trusted_ one in one import group",
                           {"proto": "cli-co", "packages": {"f/trust": co["f/trust"]}}, expected=want_req, observed=treq)
         # ---- an import path with a single element (the root package of a module named `m`, and of `my-lib.v2`)
-        for mod, want in (("m", "From Goose Require m."), ("my-lib.v2", "From Goose Require my_lib_v2.")):
+        for mod, want in (("m", "From Goose Require m."), ("my-lib.v2", "From Goose Require my_lib_v2."),
+                          ("trusted_m", "From Perennial.goose_lang.trusted Require Import trusted_m.")):
             pname = mod.replace("-", "_").replace(".", "_")
             one = {"": {"r.go": "package %s\n\nfunc Root() uint64 {\n\treturn 1\n}\n" % pname},
                    "sub": {"s.go": "package sub\n\nimport \"%s\"\n\nfunc Sub() uint64 {\n\treturn %s.Root()\n}\n" % (mod, pname)}}
